@@ -27,6 +27,7 @@ ASSUMPTIONS = common.BASE_ASSUMPTIONS + [
 ]
 REAL_VS_STUB = common.REAL_VS_STUB
 QUICK_RUNS = 56000
+GIANT_EVERY = 307  # one scenario in 307 carries a frame with a payload of 32 KiB or more
 LONG_RUN_EVERY = 211  # one scenario in 211 starts with >= 1100 tiny frames (accepted or rejected) of one or two kinds
 EXPECTED_PROBES = {
     "quick": ["pair:rtcm_empty>ubx_ok", "pair:rtcm_rej>nmea_ok", "pair:ubx_rej>ubx_ok", "pair:noise>ubx_ok", "socket_runs"],
@@ -60,6 +61,15 @@ def generate(seed: int, tier: str = "quick") -> dict:
         run, style = common.long_run_frames(r_dev, pre)
         if style not in ("unknown_hdr", "noise"):  # those contain frame-start bytes / are not frames
             frames = run + frames[:3]
+    if seed % GIANT_EVERY == GIANT_EVERY - 1:
+        # a frame in the upper half of the 16-bit length range between ordinary ones
+        nbig = r_cfg.choice((0x8000, 0x8001, 0xC000, 0xFFFE, 0xFFFF, 0x7FFF, 40000))
+        from sim import device, wire as W  # pylint: disable=import-outside-toplevel
+
+        big = W.ubx_frame(r_cfg.choice((0x02, 0x66)), r_cfg.choice((0x13, 0x77)), device.payload_bytes(r_dev, nbig, "zeros"))
+        frames = frames[:3]
+        frames.insert(r_cfg.randrange(len(frames) + 1), {"kind": "ubx", "hex": big.hex(), "faults": [], "note": f"giant ubx frame payload {nbig}"})
+        pre.hit("giant_frame_wires")
     frames = common.frame_level_faults(r_lnk, frames, pre)
     common.corrupt_preserving(r_lnk, frames, pre, p=r_cfg.choice((0.0, 0.1, 0.3)))
     frames = common.add_noise(r_lnk, frames, pre, p=r_cfg.choice((0.0, 0.15, 0.4)))
@@ -68,8 +78,15 @@ def generate(seed: int, tier: str = "quick") -> dict:
     tr = common.draw_transport(r_sch, wire_len, spans)
     if tr["kind"] == "socket":
         cfg["bufsize"] = r_sch.choice(sched.BUFSIZES)
+        if wire_len > 30000:
+            cfg["bufsize"] = r_sch.choice((64, 1024, 4096, 65536))
+            if len(tr.get("segments") or ()) > 300:
+                sizes = sched.random_segments(r_sch, wire_len, spans, style="few")
+                tr["segments"] = sched.timed_segments(r_sch, sizes, tr.get("timeout"))
         if r_sch.random() < 0.12:
             tr["kind"] = "tlssocket"
+        if r_sch.random() < 0.3:
+            cfg["writes"] = sorted({r_sch.randrange(1, 8) for _ in range(r_sch.randrange(1, 4))})  # the application sends polls between reads
     elif r_sch.random() < 0.2:
         tr = {"kind": "bytesio"}
     elif r_sch.random() < 0.06:
